@@ -124,29 +124,29 @@ Keys == SeqsUpTo(KeyTokens, KeyLen)
 FhKeys == {<<"k1">>, <<"new">>, <<"lksib">>, <<"file0">>, <<"lkout">>, <<"ldang">>, <<"k1.x">>, <<"..">>, <<>>, <<"k", "1">>}
 FileNames == {f \in SeqsUpTo(FileTokens, FileLen) : \A i \in DOMAIN f : i > 1 => f[i] \notin DOMAIN Abs}   \* absolute paths only as prefix
 
-P_ExistsConfined == \A k \in Keys : Confined(OpExists(k).touched)
-P_DeleteConfined == \A k \in Keys : ConfinedStrict(OpDelete(k).touched, TRUE)
-                                     /\ Cardinality({p \in OpDelete(k).touched : Parent(p) = S}) <= 1
-P_FileHandleConfined == \A k \in FhKeys : \A f \in FileNames : \A m \in {"r", "w"} :
-                           ConfinedStrict(OpFileHandle(k, f, m).touched, FALSE)
-P_NothingOutside == \A k \in FhKeys : \A f \in FileNames : \A p \in OpFileHandle(k, f, "w").touched : Under(p, S) /\ p # S
-
-ASSUME P_ExistsConfined
-ASSUME P_DeleteConfined
-ASSUME P_FileHandleConfined
-ASSUME P_NothingOutside
-
-VARIABLE dummy
-DummySpec == dummy = 0 /\ [][dummy' = dummy]_dummy
-DummyInv == dummy = 0
+(* As a state space: one initial state per case <<op, key tokens, filename tokens, mode>>; the invariants say that what *)
+(* the transcribed operation touches is confined.                                                                      *)
+VARIABLE case
+(* "mut:" cases: the key is first used while it is harmless (absent, then a real directory), then its name is replaced *)
+(* by a symlink to the outside directory, then the operation runs: it must behave exactly as for the key "lkout".     *)
+MutCases == {<<"mut:exists", <<"new">>, <<>>, "">>, <<"mut:delete", <<"new">>, <<>>, "">>}
+            \cup {<<"mut:file_handle", <<"new">>, f, m>> : f \in {<<"secret">>, <<"n">>, <<"od">>}, m \in {"r", "w", "a"}}
+Cases == {<<"exists", k, <<>>, "">> : k \in Keys} \cup {<<"delete", k, <<>>, "">> : k \in Keys}
+         \cup {<<"file_handle", k, f, m>> : k \in FhKeys, f \in FileNames, m \in Modes} \cup MutCases
+Result(c) == IF c[1] = "exists" THEN OpExists(c[2]) ELSE IF c[1] = "delete" THEN OpDelete(c[2])
+             ELSE IF c[1] = "file_handle" THEN OpFileHandle(c[2], c[3], c[4])
+             ELSE IF c[1] = "mut:exists" THEN OpExists(<<"lkout">>) ELSE IF c[1] = "mut:delete" THEN OpDelete(<<"lkout">>)
+             ELSE OpFileHandle(<<"lkout">>, c[3], c[4])
+CaseSpec == case \in Cases /\ [][UNCHANGED case]_case
+I_Confined == ConfinedStrict(Result(case).touched, case[1] \in {"delete", "mut:delete"})
+I_NothingOutside == \A p \in Result(case).touched : Under(p, S) /\ p # S
+I_DeleteAtMostOneChild == case[1] \in {"delete", "mut:delete"} => Cardinality({p \in Result(case).touched : Parent(p) = S}) <= 1
+I_ExistsTouchesNothing == case[1] \in {"exists", "mut:exists"} => Result(case).touched = {}
+DummySpec == CaseSpec
+DummyInv == TRUE
 
 EmitCases(x) ==
-  /\ \A k \in Keys : x >= 0 /\ PrintT("@@" \o ToJson([op |-> "exists", key |-> k, fn |-> <<>>, mode |-> "",
-                                                      err |-> OpExists(k).err, touched |-> SetToSeq(OpExists(k).touched)]))
-  /\ \A k \in Keys : PrintT("@@" \o ToJson([op |-> "delete", key |-> k, fn |-> <<>>, mode |-> "",
-                                            err |-> OpDelete(k).err, touched |-> SetToSeq(OpDelete(k).touched)]))
-  /\ \A k \in FhKeys : \A f \in FileNames : \A m \in Modes :
-        PrintT("@@" \o ToJson([op |-> "file_handle", key |-> k, fn |-> f, mode |-> m,
-                               err |-> OpFileHandle(k, f, m).err, touched |-> SetToSeq(OpFileHandle(k, f, m).touched)]))
+  \A c \in Cases : x >= 0 /\ PrintT("@@" \o ToJson([op |-> c[1], key |-> c[2], fn |-> c[3], mode |-> c[4],
+                                                     err |-> Result(c).err, touched |-> SetToSeq(Result(c).touched)]))
 EmitPost == EmitCases(TLCGet("distinct"))
 =============================================================================
